@@ -128,7 +128,7 @@ MATH_FUNCS = {'cos': 'vcos', 'sin': 'vsin', 'exp': 'vexp', 'log': 'vlog', 'sqrt'
               'pow': 'vpow'}
 C_KEYWORDS = {'if', 'else', 'for', 'while', 'do', 'return', 'switch', 'case', 'default', 'break', 'continue', 'int', 'const',
               'Sc', 'void', 'long', 'unsigned'}
-PRELUDE_IDS = {'LIT', 'VF_IDX', 'VF_TOINT', 'SCAST', 'GHOST_MSG', 'GHOST_EXIT', 'vpowi', 'vinv', 'pi', 'PI', 'ghost_nan', 'VF_EPS',
+PRELUDE_IDS = {'LIT', 'true', 'false', 'VF_IDX', 'VF_TOINT', 'SCAST', 'GHOST_MSG', 'GHOST_EXIT', 'vpowi', 'vinv', 'pi', 'PI', 'ghost_nan', 'VF_EPS',
                'VF_NAN'} | set(MATH_FUNCS.values())
 
 
@@ -203,8 +203,8 @@ def parse_class_decl(header_text, cls):
             continue
         if vals[0] in ('Scalar', 'double', 'float') and all(re.match(r'^[A-Za-z_]\w*$|^,$', v) for v in vals[1:]):
             scalars += [v for v in vals[1:] if v != ',']
-        elif vals[0] == 'int' and all(re.match(r'^[A-Za-z_]\w*$|^,$', v) for v in vals[1:]):
-            ints += [v for v in vals[1:] if v != ',']
+        elif vals[0] in ('int', 'bool') and all(re.match(r'^[A-Za-z_]\w*$|^,$', v) for v in vals[1:]):
+            ints += [v for v in vals[1:] if v != ',']      # bool members are int members (true/false are 1/0 in the preludes)
         elif vals[:5] == ['std', '::', 'vector', '<', 'Scalar'] and vals[5] == '>':
             vectors += [v for v in vals[6:] if v != ',']
         else:
